@@ -23,6 +23,7 @@ import (
 
 	"github.com/gopcua/opcua/ua"
 	"github.com/gopcua/opcua/uacp"
+	"github.com/gopcua/opcua/uapolicy"
 	"github.com/gopcua/opcua/uasc"
 
 	"verifharness/internal/h"
@@ -173,6 +174,24 @@ type link struct {
 	cancel     context.CancelFunc
 }
 
+// signKeys, when set, are the two test identities used for the Sign-mode transfers
+// (client = a, server = b; policy Basic256Sha256, 32 signature bytes per chunk).
+var signKeys [2]*h.KeyPair
+
+const signatureLen = 32
+
+func cfgs(sign bool) (cli, srv *uasc.Config) {
+	cli, srv = noneCfg(), noneCfg()
+	if sign {
+		a, b := signKeys[0], signKeys[1]
+		cli.SecurityPolicyURI, cli.SecurityMode = ua.SecurityPolicyURIBasic256Sha256, ua.MessageSecurityModeSign
+		cli.Certificate, cli.LocalKey, cli.RemoteCertificate, cli.Thumbprint = a.CertDER, a.Key, b.CertDER, uapolicy.Thumbprint(b.CertDER)
+		srv.SecurityPolicyURI, srv.SecurityMode = ua.SecurityPolicyURIBasic256Sha256, ua.MessageSecurityModeSign
+		srv.Certificate, srv.LocalKey = b.CertDER, b.Key
+	}
+	return
+}
+
 func noneCfg() *uasc.Config {
 	return &uasc.Config{SecurityPolicyURI: ua.SecurityPolicyURINone, SecurityMode: ua.MessageSecurityModeNone,
 		Lifetime: 3600000, RequestTimeout: stepTimeout}
@@ -244,10 +263,11 @@ func connect(C, S ack4) (*link, error) {
 }
 
 // open performs a real None-mode OpenSecureChannel between the two ends.
-func (l *link) open(seed uint32) error {
+func (l *link) open(seed uint32, sign bool) error {
 	var err error
+	ccfg, scfg := cfgs(sign)
 	l.cerr, l.serr = make(chan error, 16), make(chan error, 16)
-	l.ssc, err = uasc.NewServerSecureChannel("", l.srv, noneCfg(), l.serr, 1000+seed, 1+seed%1000, 7000+seed)
+	l.ssc, err = uasc.NewServerSecureChannel("", l.srv, scfg, l.serr, 1000+seed, 1+seed%1000, 7000+seed)
 	if err != nil {
 		return err
 	}
@@ -261,7 +281,7 @@ func (l *link) open(seed uint32) error {
 			}
 		}
 	}()
-	l.csc, err = uasc.NewSecureChannel("opc.tcp://"+l.p.ln.Addr().String(), l.cli, noneCfg(), l.cerr)
+	l.csc, err = uasc.NewSecureChannel("opc.tcp://"+l.p.ln.Addr().String(), l.cli, ccfg, l.cerr)
 	if err != nil {
 		return err
 	}
@@ -354,13 +374,13 @@ type outcome struct {
 	opn          string   // "" or the side that refused the OpenSecureChannel message (then wire/n/verdict describe that message)
 }
 
-func msgSizes(fs []frameRec) (sizes []uint32, n int, final bool) {
+func msgSizes(fs []frameRec, perChunk int) (sizes []uint32, n int, final bool) {
 	for _, f := range fs {
 		if f.typ != "MSG" {
 			continue
 		}
 		sizes = append(sizes, f.size)
-		n += int(f.size) - 24
+		n += int(f.size) - perChunk
 		if f.chunk == 'F' {
 			final = true
 		}
@@ -369,14 +389,18 @@ func msgSizes(fs []frameRec) (sizes []uint32, n int, final bool) {
 }
 
 // transfer sends one message with `payload` bytes of ByteString in direction dir ("c2s" / "s2c").
-func transfer(C, S ack4, dir string, payload int, seed uint32) (*outcome, error) {
+func transfer(C, S ack4, dir string, payload int, seed uint32, sign bool) (*outcome, error) {
+	perChunk := 24
+	if sign {
+		perChunk += signatureLen
+	}
 	l, err := connect(C, S)
 	if err != nil {
 		return nil, err
 	}
 	defer l.close()
 	out := &outcome{cview: ofConn(l.cli), sview: ofConn(l.srv)}
-	if err := l.open(seed); err != nil {
+	if err := l.open(seed, sign); err != nil {
 		or, ok := err.(*openRefused)
 		if !ok {
 			return nil, err
@@ -446,7 +470,7 @@ func transfer(C, S ack4, dir string, payload int, seed uint32) (*outcome, error)
 		} else {
 			out.sender = senderOf(nil, fin)
 		}
-		out.wire, out.n, out.complete = msgSizes(l.p.frames(0)[from:])
+		out.wire, out.n, out.complete = msgSizes(l.p.frames(0)[from:], perChunk)
 	case "s2c":
 		go send(&ua.ReadRequest{NodesToRead: []*ua.ReadValueID{{NodeID: ua.NewNumericNodeID(0, 1), AttributeID: ua.AttributeIDValue, DataEncoding: &ua.QualifiedName{}}}})
 		var m *uasc.MessageBody
@@ -462,7 +486,7 @@ func transfer(C, S ack4, dir string, payload int, seed uint32) (*outcome, error)
 		serr := l.ssc.SendResponseWithContext(l.ctx, m.RequestID, bigResponse(payload, m.RequestID))
 		fin := l.p.waitFinal(1, from, stepTimeout)
 		out.sender = senderOf(serr, fin)
-		out.wire, out.n, out.complete = msgSizes(l.p.frames(1)[from:])
+		out.wire, out.n, out.complete = msgSizes(l.p.frames(1)[from:], perChunk)
 		if !fin {
 			out.verdict = "nothing-sent"
 			break
@@ -497,13 +521,18 @@ func senderOf(err error, final bool) string {
 // ------------------------------------------------------------ cases
 
 type tcase struct {
+	sign    bool // Basic256Sha256 / Sign instead of None
 	dir     string
 	C, S    ack4
 	payload int
 }
 
 func (c tcase) line(n int) string {
-	return fmt.Sprintf("xfer %s %s %s %d", c.dir, c.C, c.S, n)
+	op := "xfer"
+	if c.sign {
+		op = "xfer-sign"
+	}
+	return fmt.Sprintf("%s %s %s %s %d", op, c.dir, c.C, c.S, n)
 }
 
 // adoptZero mirrors nothing of the implementation: it is the spec reading of
@@ -531,7 +560,7 @@ func (e *env) fail(c, sig, detail string) {
 // eval returns false when the channel could not be opened (further sizes are pointless).
 func (e *env) eval(tc tcase) bool {
 	e.seed++
-	o, err := transfer(tc.C, tc.S, tc.dir, tc.payload, e.seed)
+	o, err := transfer(tc.C, tc.S, tc.dir, tc.payload, e.seed, tc.sign)
 	if err != nil {
 		e.r.InfraError = fmt.Sprintf("%s payload=%d: %v", tc.line(-1), tc.payload, err)
 		return false
@@ -551,6 +580,10 @@ func (e *env) eval(tc tcase) bool {
 		maxw = max(maxw, w)
 		last = w
 	}
+	if o.opn != "" && tc.sign {
+		e.fail(line, "", "OpenSecureChannel (Basic256Sha256, Sign) refused by the "+o.opn+": "+o.verdict)
+		return false
+	}
 	var ans string
 	if o.opn == "" {
 		ans = fmt.Sprintf("neg %s | %s open ok wire %d %d %d send %s recv %s", o.cview, o.sview, len(o.wire), maxw, last, o.sender, o.verdict)
@@ -563,6 +596,11 @@ func (e *env) eval(tc tcase) bool {
 	e.r.Compare(e.d, line, ans)
 	e.r.Sample(line + " -> " + ans)
 	e.r.Hit("dir:" + tc.dir)
+	if tc.sign {
+		e.r.Hit("mode:Sign/Basic256Sha256")
+	} else {
+		e.r.Hit("mode:None")
+	}
 	e.r.Hit("verdict:" + strings.SplitN(o.verdict, ":", 2)[0])
 	e.r.Hit("sender:" + o.sender)
 	e.r.Hit(fmt.Sprintf("chunks:%d", min(len(o.wire), 5)))
@@ -660,8 +698,14 @@ func (e *env) payloadFor(dir string, n int) int {
 
 func parseCase(line string) (dir string, C, S ack4, n int, err error) {
 	t := strings.Fields(line)
-	if len(t) != 11 || t[0] != "xfer" {
+	if i := strings.Index(line, " ["); i > 0 { // "[OpenSecureChannel message, …]" suffix of a failure record
+		t = strings.Fields(line[:i])
+	}
+	if len(t) != 11 || (t[0] != "xfer" && t[0] != "xfer-sign") {
 		return "", C, S, 0, fmt.Errorf("not an xfer line: %q", line)
+	}
+	if t[0] == "xfer-sign" {
+		defer func() { dir = "sign:" + dir }()
 	}
 	v := make([]uint32, 8)
 	for i := range v {
@@ -694,7 +738,7 @@ func main() {
 
 	// calibration: body bytes of a request / response around an empty payload
 	for _, dir := range []string{"c2s", "s2c"} {
-		oc, err := transfer(def, defS, dir, 1, 1)
+		oc, err := transfer(def, defS, dir, 1, 1, false)
 		if err != nil || len(oc.wire) != 1 {
 			r.InfraError = fmt.Sprintf("calibration %s: %v", dir, err)
 			r.Write(o.Out)
@@ -713,14 +757,34 @@ func main() {
 		if r.InfraError != "" {
 			return false
 		}
-		return e.eval(tcase{dir, C, S, e.payloadFor(dir, n)})
+		return e.eval(tcase{dir: dir, C: C, S: S, payload: e.payloadFor(dir, n)})
+	}
+	runSign := func(dir string, C, S ack4, n int) bool {
+		if r.InfraError != "" || signKeys[0] == nil {
+			return false
+		}
+		return e.eval(tcase{sign: true, dir: dir, C: C, S: S, payload: e.payloadFor(dir, n)})
+	}
+	if a, err := h.LoadKey(o.Keys, 2048, "a"); err == nil {
+		if b, err := h.LoadKey(o.Keys, 2048, "b"); err == nil {
+			signKeys = [2]*h.KeyPair{a, b}
+		}
+	}
+	if signKeys[0] == nil {
+		r.Notes = append(r.Notes, "test keys not found: no Sign-mode transfers")
+	}
+	runAny := func(dir string, C, S ack4, n int) bool {
+		if d, ok := strings.CutPrefix(dir, "sign:"); ok {
+			return runSign(d, C, S, n)
+		}
+		return run(dir, C, S, n)
 	}
 	if o.Replay != "" {
 		dir, C, S, n, err := parseCase(o.Replay)
 		if err != nil {
 			r.InfraError = "bad replay case: " + err.Error()
 		} else {
-			run(dir, C, S, n)
+			runAny(dir, C, S, n)
 		}
 		r.Write(o.Out)
 		return
@@ -731,7 +795,7 @@ func main() {
 			r.Notes = append(r.Notes, "bad corpus line: "+err.Error())
 			continue
 		}
-		run(dir, C, S, n)
+		runAny(dir, C, S, n)
 		r.Hit("corpus")
 	}
 
@@ -742,6 +806,17 @@ func main() {
 			if n >= 200 && n <= 8<<20 {
 				run(dir, def, defS, n)
 				r.Hit("default-config")
+			}
+		}
+	}
+	// the same under a signing policy (Basic256Sha256, Sign): every chunk carries 32 signature bytes that
+	// SetMaximumBodySize must have left room for; sizes around one and two full bodies
+	sym8k := ack4{8192, 8192, 0, 0}
+	for _, cfg := range [][2]ack4{{def, defS}, {sym8k, ack4{8192, 8192, defS.maxMsg, defS.maxChunks}}} {
+		for _, dir := range []string{"c2s", "s2c"} {
+			mbs := int(cfg[1].snd) - 12 - 4 - 8 - signatureLen - 1
+			for _, n := range []int{300, mbs - 1, mbs, mbs + 1, 2*mbs + 5} {
+				runSign(dir, cfg[0], cfg[1], n)
 			}
 		}
 	}
@@ -807,7 +882,7 @@ func main() {
 		}
 	}
 	for _, b := range []string{"dir:c2s", "dir:s2c", "verdict:ok", "verdict:chunk-too-large", "verdict:too-many-chunks", "verdict:message-too-large",
-		"buffers:symmetric", "buffers:asymmetric", "limit:0(unlimited)", "chunks:1", "chunks:2", "chunks:5"} {
+		"mode:None", "mode:Sign/Basic256Sha256", "buffers:symmetric", "buffers:asymmetric", "limit:0(unlimited)", "chunks:1", "chunks:2", "chunks:5"} {
 		if r.Distribution[b] == 0 {
 			r.Unreached = append(r.Unreached, b)
 		}
